@@ -574,7 +574,7 @@ pub fn run(args: &Args) -> i32 {
     "obs",
   );
   out.per_shard = 100;
-  let dp = DomainParticipant::new(DOMAIN).expect("participant");
+  let dp = util::participant(DOMAIN);
   let corpus = corpus();
   let ncorpus = corpus.len();
   let total = ncorpus + args.n;
